@@ -274,6 +274,7 @@ type agg struct {
 	traces      map[string]bool
 	states      map[string]bool
 	stats       map[string]int
+	other       map[string]int
 	probes      map[string]int
 	policies    map[string]int
 	profiles    map[string]int
@@ -296,7 +297,7 @@ type agg struct {
 }
 
 func newAgg() *agg {
-	return &agg{nontriv: map[string]bool{}, traces: map[string]bool{}, states: map[string]bool{}, stats: map[string]int{}, probes: map[string]int{},
+	return &agg{nontriv: map[string]bool{}, traces: map[string]bool{}, states: map[string]bool{}, stats: map[string]int{}, other: map[string]int{}, probes: map[string]int{},
 		policies: map[string]int{}, profiles: map[string]int{}, viols: map[string]*workerLine{}, violCount: map[string]int{}, porcupine: map[string]int{}}
 }
 
@@ -327,7 +328,11 @@ func (a *agg) add(l *workerLine) {
 		}
 	}
 	for k, v := range r.Stats {
-		a.stats[k] += v
+		if strings.HasPrefix(k, "fault/") {
+			a.stats[k] += v
+		} else {
+			a.other[k] += v
+		}
 	}
 	for k, v := range r.Probes {
 		a.probes[k] += v
@@ -890,6 +895,7 @@ func writeEvidence(prop, tier string, seed uint64, a *agg, wall, buildS float64,
 			"durable_effects":          a.effects,
 			"crashes_injected":         a.crashes,
 			"faults_fired":             a.stats,
+			"other_counters":           a.other,
 			"probes":                   a.probes,
 			"policies":                 a.policies,
 			"profiles":                 a.profiles,
@@ -964,7 +970,7 @@ func tailStr(s string, n int) string {
 }
 
 func atomicAdd(p *int64, d int64) { atomic.AddInt64(p, d) }
-func idle(p *int64) bool        { return atomic.LoadInt64(p) == 0 }
+func idle(p *int64) bool          { return atomic.LoadInt64(p) == 0 }
 
 // writePanicReplay confirms that the plan kills a fresh process with the same top frame and writes the replay file.
 func writePanicReplay(bin, work, prop, sig string, plan []byte, msg string, seed uint64) string {
